@@ -156,6 +156,22 @@ def roles(ctx):
                     for x in ast.walk(g.node)) and g is not lr and not any(
                         isinstance(x, ast.For) for x in ast.walk(g.node)):
                 r.get_path = g
+    if r.dir_updated is None:
+        # by what it does: the callee of a load body that reads modification
+        # times (and is not the loader / walker / path lookup)
+        for b in bodies:
+            for call, g in prog.callees(b):
+                if not isinstance(call, ast.Call) or g in (
+                        r.loader, r.walker, r.get_path, r.recorder, lr):
+                    continue
+                if any(isinstance(x, ast.Call) and (prog.resolve(
+                        f2.module, x.func) or '') in (
+                            'ext:os.path.getmtime', 'ext:os.stat',
+                            'ext:os.scandir')
+                        for f2 in prog.region(g).values()
+                        for x in ast.walk(f2.node)) and r.loader.qual \
+                        not in prog.region(g):
+                    r.dir_updated = g
     if r.get_path is None:
         raise AnalysisError('policy path lookup helper not found')
     if r.walker is None:
@@ -236,7 +252,7 @@ def load_table(ctx):
             return None
         return g
     t = Table(prog, r.load_rules, inline=inline if helper_quals else None,
-              writes=writes_cb(prog), max_paths=400000)
+              writes=writes_cb(prog), max_paths=400000, comps=True)
     t.roles = r
     cache['load_table'] = t
     return t
